@@ -165,6 +165,12 @@ namespace bloch::compiler {
                    (t.value == ValueType::Boolean || t.value == ValueType::Bit);
         }
 
+        // Class and array types also carry the Unknown primitive tag, so a type is only really
+        // unknown when it names no class or array either.
+        bool isUnknownType(const SemanticAnalyser::TypeInfo& t) {
+            return t.value == ValueType::Unknown && t.className.empty();
+        }
+
         bool isBitArrayType(const SemanticAnalyser::TypeInfo& t) {
             return isArrayType(t) && !t.typeArgs.empty() && t.typeArgs[0].className.empty() &&
                    t.typeArgs[0].value == ValueType::Bit;
@@ -449,7 +455,7 @@ namespace bloch::compiler {
         }
 
         if (expected.className.empty()) {
-            if (expected.value == ValueType::Unknown || actual.value == ValueType::Unknown)
+            if (expected.value == ValueType::Unknown || isUnknownType(actual))
                 return true;
             if (actual.className.empty())
                 return matchesPrimitive(expected.value, actual.value);
@@ -501,7 +507,7 @@ namespace bloch::compiler {
         }
 
         if (expected.className.empty()) {
-            if (expected.value == ValueType::Unknown || actual.value == ValueType::Unknown)
+            if (expected.value == ValueType::Unknown || isUnknownType(actual))
                 return 0;
             if (actual.className.empty()) {
                 if (expected.value == actual.value)
@@ -830,7 +836,7 @@ namespace bloch::compiler {
 
         if (auto primType = targetInfo.value; primType != ValueType::Unknown) {
             ValueType initT = initInfo.value;
-            if (!matchesPrimitive(primType, initT)) {
+            if (!initInfo.className.empty() || !matchesPrimitive(primType, initT)) {
                 if (primType == ValueType::Bit) {
                     if (auto lit = dynamic_cast<LiteralExpression*>(initializer)) {
                         if (lit->literalType == "int") {
@@ -848,7 +854,7 @@ namespace bloch::compiler {
                 }
                 throw BlochError(ErrorCategory::Semantic, line, column,
                                  "initialiser for '" + name + "' expected '" +
-                                     typeToString(primType) + "' but got '" + typeToString(initT) +
+                                     typeToString(primType) + "' but got '" + typeLabel(initInfo) +
                                      "'");
             }
         } else if (!targetInfo.className.empty()) {
@@ -860,8 +866,7 @@ namespace bloch::compiler {
                     throw BlochError(ErrorCategory::Semantic, line, column,
                                      "initialiser for '" + name + "' cannot be null");
                 }
-            } else if (!isAssignableType(targetInfo, initInfo) &&
-                       initInfo.value != ValueType::Unknown) {
+            } else if (!isAssignableType(targetInfo, initInfo) && !isUnknownType(initInfo)) {
                 throw BlochError(
                     ErrorCategory::Semantic, line, column,
                     "initialiser for '" + name + "' expected '" + typeLabel(targetInfo) + "'");
@@ -1688,7 +1693,7 @@ namespace bloch::compiler {
                         throw BlochError(ErrorCategory::Semantic, node.line, node.column,
                                          "return type mismatch");
                     }
-                } else if (!matchesPrimitive(m_currentReturn.value, actual.value)) {
+                } else if (!isAssignableType(m_currentReturn, actual)) {
                     throw BlochError(ErrorCategory::Semantic, node.line, node.column,
                                      "return type mismatch");
                 }
@@ -1851,8 +1856,7 @@ namespace bloch::compiler {
                         throw BlochError(ErrorCategory::Semantic, node.line, node.column,
                                          "cannot assign null to '" + node.name + "'");
                     }
-                } else if (valType.value != ValueType::Unknown &&
-                           !isAssignableType(targetType, valType)) {
+                } else if (!isUnknownType(valType) && !isAssignableType(targetType, valType)) {
                     throw BlochError(ErrorCategory::Semantic, node.line, node.column,
                                      "assignment to '" + node.name + "' expects '" +
                                          typeLabel(targetType) + "'");
@@ -1877,13 +1881,12 @@ namespace bloch::compiler {
                     }
                 }
                 if (!targetType.className.empty() && valType.value != ValueType::Null &&
-                    valType.value != ValueType::Unknown && !isAssignableType(targetType, valType)) {
+                    !isUnknownType(valType) && !isAssignableType(targetType, valType)) {
                     throw BlochError(ErrorCategory::Semantic, node.line, node.column,
                                      "assignment to field '" + node.name + "' expects '" +
                                          typeLabel(targetType) + "'");
-                } else if (field->type.value != ValueType::Unknown &&
-                           valType.value != ValueType::Unknown &&
-                           !matchesPrimitive(targetType.value, valType.value)) {
+                } else if (field->type.value != ValueType::Unknown && !isUnknownType(valType) &&
+                           !isAssignableType(targetType, valType)) {
                     throw BlochError(ErrorCategory::Semantic, node.line, node.column,
                                      "assignment to field '" + node.name + "' expects '" +
                                          typeToString(targetType.value) + "'");
@@ -2177,9 +2180,8 @@ namespace bloch::compiler {
                                          "argument #" + std::to_string(i + 1) + " to '" + name +
                                              "' expected '" + typeLabel(expected) + "'");
                     }
-                } else if (expected.value != ValueType::Unknown &&
-                           actual.value != ValueType::Unknown &&
-                           !matchesPrimitive(expected.value, actual.value)) {
+                } else if (expected.value != ValueType::Unknown && !isUnknownType(actual) &&
+                           !isAssignableType(expected, actual)) {
                     throw BlochError(ErrorCategory::Semantic, arg->line, arg->column,
                                      "argument #" + std::to_string(i + 1) + " to '" + name +
                                          "' expected '" + typeToString(expected.value) + "'");
@@ -2520,8 +2522,7 @@ namespace bloch::compiler {
                         throw BlochError(ErrorCategory::Semantic, node.line, node.column,
                                          "cannot assign null to '" + node.name + "'");
                     }
-                } else if (valType.value != ValueType::Unknown &&
-                           !isAssignableType(targetType, valType)) {
+                } else if (!isUnknownType(valType) && !isAssignableType(targetType, valType)) {
                     throw BlochError(ErrorCategory::Semantic, node.line, node.column,
                                      "assignment to '" + node.name + "' expects '" +
                                          typeLabel(targetType) + "'");
@@ -2546,13 +2547,12 @@ namespace bloch::compiler {
                     }
                 }
                 if (!targetType.className.empty() && valType.value != ValueType::Null &&
-                    valType.value != ValueType::Unknown && !isAssignableType(targetType, valType)) {
+                    !isUnknownType(valType) && !isAssignableType(targetType, valType)) {
                     throw BlochError(ErrorCategory::Semantic, node.line, node.column,
                                      "assignment to field '" + node.name + "' expects '" +
                                          typeLabel(targetType) + "'");
-                } else if (field->type.value != ValueType::Unknown &&
-                           valType.value != ValueType::Unknown &&
-                           !matchesPrimitive(targetType.value, valType.value)) {
+                } else if (field->type.value != ValueType::Unknown && !isUnknownType(valType) &&
+                           !isAssignableType(targetType, valType)) {
                     throw BlochError(ErrorCategory::Semantic, node.line, node.column,
                                      "assignment to field '" + node.name + "' expects '" +
                                          typeToString(targetType.value) + "'");
@@ -2626,13 +2626,12 @@ namespace bloch::compiler {
                 }
             }
             if (!targetType.className.empty() && valType.value != ValueType::Null &&
-                valType.value != ValueType::Unknown && !isAssignableType(targetType, valType)) {
+                !isUnknownType(valType) && !isAssignableType(targetType, valType)) {
                 throw BlochError(ErrorCategory::Semantic, node.line, node.column,
                                  "assignment to field '" + node.member + "' expects '" +
                                      typeLabel(targetType) + "'");
-            } else if (targetType.value != ValueType::Unknown &&
-                       valType.value != ValueType::Unknown &&
-                       !matchesPrimitive(targetType.value, valType.value)) {
+            } else if (targetType.value != ValueType::Unknown && !isUnknownType(valType) &&
+                       !isAssignableType(targetType, valType)) {
                 throw BlochError(ErrorCategory::Semantic, node.line, node.column,
                                  "assignment to field '" + node.member + "' expects '" +
                                      typeToString(targetType.value) + "'");
@@ -2683,7 +2682,8 @@ namespace bloch::compiler {
 
         auto typesCompatible =
             isAssignableType(elemType, valType) ||
-            matchesPrimitive(elemType.value, valType.value) ||
+            (elemType.className.empty() && valType.className.empty() &&
+             matchesPrimitive(elemType.value, valType.value)) ||
             (elemType.value == ValueType::Int && valType.value == ValueType::Bit);
 
         if (!typesCompatible) {
